@@ -87,6 +87,11 @@ pub(crate) fn store_from(a: Option<GEnt>, b: Option<GEnt>, stale: Option<(i64, u
     s
 }
 
+/// the answer the validator gave in its last call (None: never consulted)
+pub(crate) fn validator_last(s: &Store) -> Option<bool> {
+    s.validator.last()
+}
+
 /// raw content of the store for a key (bypasses the expiry filter of get)
 pub(crate) fn raw(s: &Store, k: u64) -> Option<GEnt> {
     s.shards[(k as usize) % NUM_OF_SHARDS]
